@@ -259,6 +259,17 @@ impl World {
             ("engine", "position_with_funding_payment") => json!({"position_with_funding_payment": {"vamm": self.a(&gs(a, "vamm")), "trader": self.a(&gs(a, "trader"))}}),
             ("engine", "is_whitelisted") => json!({"is_whitelisted": {"address": self.a(&gs(a, "address"))}}),
             ("engine", "config") => json!({"config": {}}),
+            ("engine", "pauser") => json!({"get_pauser": {}}),
+            ("engine", "whitelist") => json!({"get_whitelist": {}}),
+            ("vamm", "config") => json!({"config": {}}),
+            ("vamm", "state") => json!({"state": {}}),
+            ("vamm", "owner") => json!({"get_owner": {}}),
+            ("ifund", "config") => json!({"config": {}}),
+            ("ifund", "owner") => json!({"get_owner": {}}),
+            ("fpool", "config") => json!({"config": {}}),
+            ("fpool", "owner") => json!({"get_owner": {}}),
+            ("fpool", "get_token_list") => json!({"get_token_list": {"limit": a.get("limit").cloned().unwrap_or(Value::Null)}}),
+            ("feed", "config") => json!({"config": {}}),
             ("engine", "state") => json!({"state": {}}),
             ("ifund", "is_vamm") => json!({"is_vamm": {"vamm": self.a(&gs(a, "vamm"))}}),
             ("ifund", "get_all_vamm") => json!({"get_all_vamm": {"limit": a.get("limit").cloned().unwrap_or(Value::Null)}}),
